@@ -239,6 +239,9 @@ static void wakeup_event_event(void *vp, void *arg)
     }
 }
 
+/* For cmb_process_wait_event(), to withdraw a pending wakeup of this kind */
+cmb_event_func *const wakeup_event_event_fn = wakeup_event_event;
+
 void wake_event_waiters(struct cmi_slist_head *waiters,
                         const int64_t signal)
 {
